@@ -216,7 +216,8 @@ class _Epilogue(_RootSiblingsContainer):
 
     def _iter_all(self):
         with altered_default_filters():
-            yield from self._document.root.iterate_following_siblings()
+            nodes = tuple(self._document.root.iterate_following_siblings())
+        yield from nodes
 
 
 class _Prologue(_RootSiblingsContainer):
@@ -228,7 +229,8 @@ class _Prologue(_RootSiblingsContainer):
 
     def _iter_all(self):
         with altered_default_filters():
-            yield from self._document.root.iterate_preceding_siblings()
+            nodes = tuple(self._document.root.iterate_preceding_siblings())
+        yield from nodes
 
 
 class DocumentMeta(type):
